@@ -47,6 +47,7 @@ class InjectedError(RuntimeError):
 # current simulation (one per process at a time)
 
 CURRENT = None
+ON_RUN = None      # called at the start of every simulated connection (the runner re-arms its watchdog here)
 
 
 def cur():
@@ -992,6 +993,8 @@ def run_scenario(scenario, on_event=None):
     """Run one connect() of the real client against the scenario; returns a Trace."""
     global CURRENT
     install()
+    if ON_RUN is not None:
+        ON_RUN()
     sim = Sim(scenario)
     CURRENT = sim
     tr = Trace()
@@ -1013,6 +1016,8 @@ def run_chain(scenario, count=None, on_event=None):
     list of Traces (sharing one Sim; each knows its slice of the wire log)."""
     global CURRENT
     install()
+    if ON_RUN is not None:
+        ON_RUN()
     sim = Sim(scenario)
     CURRENT = sim
     traces = []
